@@ -31,25 +31,39 @@ MATCHERS = {"f14_ws_splits_cluster": m_f14, "f15_corrupt_grapheme_resegmentation
 PROPS = {
     "C01": dict(
         anchors=[("src/tokenization.rs", r"fn split_input<"), ("src/tokenization.rs", r"fn new_base_tokenizer\("), ("src/tokenization.rs", r"fn process_input\("), ("src/tokenization.rs", r"impl Tokenize for ByteTokenizer"), ("src/tokenization.rs", r"impl VocabTokenize<char> for CharTokenizer"), ("src/tokenization.rs", r"impl<Token, Config> Tokenize for VocabTokenizer<Token, Config>")],
-        rule="P01",
-        claim="P01", note="P01",
+        rule="configs: byte (byte / code-point groups, pad_to_multiple_of in {none,1,2,64,128,512}) and char (graphemes on/off, two unk spellings) x special token sets (default, extra tokens, duplicates, single token, non-ASCII tokens, a non-prefix-free stream <a>/<a>b, a clash with <extra_token_0>) x prefix/suffix lists of length 0-3 x ignore_special_tokens; strings mixing special spellings and near-spellings (<pad>, <pad, pad>, <<pad>>, <extra_token_1>, <extra_token_10>) with 1-4 byte characters, combining marks, ZWJ, CRLF, all White_Space; texts over the char alphabet (round-trip stream); arbitrary id sequences for de_tokenize; thorough adds all strings of <= 4 symbols over a 9-symbol alphabet x 4 configs x both flags",
+        exhaustive={"thorough": "all strings of <= 4 symbols over {a,<,>,<pad>,pad,a-umlaut,U+0301,space,<unk>} x 4 configs x ignore_special_tokens"},
+        trusted=UNICODE + ["regex crate: leftmost-first alternation of escaped literals (modelled by matchAt/splitAux and compared on every request); HashMap iteration order decides the alternation order: for token sets that are not prefix-free the model refuses the request and only the order-independent oracle is evaluated"],
+        claim="Theorems (all byte strings, all token lists, any alternation order): splitInput_concat (pieces concatenate to the input), splitInput_special, byteTokenize_shape / byteTokenize_ignore / pieceIds_range (prefix ids, bytes as ids < 256, each special occurrence one id >= 256, suffix ids), byteDetok_text and byteDetok_tokenize_keep (decoding with special tokens kept returns prefix tokens + original bytes + suffix tokens, for every configuration accepted by the constructor), byte_roundtrip; charTokenize_length (one id per character / special occurrence), charId_regular_iff / charId_unk (unknown id iff not a single alphabet code point), charDetok_regular / char_roundtrip. Exact correspondence through tokenizer(cfg).tokenize / de_tokenize incl. token groups; oracle evaluates the property on the API.",
+        note="Grapheme clusters and the piece segmentation are supplied by the real code (per regular piece); UTF-8 validity is modelled (validUtf8) and compared on arbitrary id sequences. Order independence of the split for prefix-free token sets is not yet a theorem (the model uses id order; disagreement would show in the correspondence).",
         min_nontrivial={"quick": 300, "thorough": 5000},
         reject_ok=True,
     ),
     "C02": dict(
         anchors=[("src/tokenization.rs", r"fn merge_bytes\("), ("src/tokenization.rs", r"impl Tokenize for BPETokenizer"), ("src/tokenization.rs", r"impl BPETokenizer")],
-        rule="P02", claim="P02", note="P02",
+        rule="well-formed merge tables: 12 adversarial families (competing overlaps, chains ab/abc/abcd, aa-runs, merges that become possible only after a later merge, space-prefixed words) + random well-formed tables over 3-5 letters incl. a 2-byte letter, 0-40 entries; max_vocab_size below/at/above the table; prefix/suffix configs; strings over the table alphabet with all whitespace kinds, leading/trailing/multiple whitespace, special spellings; arbitrary id sequences for de_tokenize",
+        trusted=UNICODE + ["regex \\s+\\S+|^\\S+ is modelled by splitWords and compared on every request; rmp-serde merge files are written with the crate's own SerializeMsgPack"],
+        claim="Model of BPETokenizer (word splitting, heap-driven merge loop with Rust's tuple ordering, truncation by max_vocab_size, tokenize/de_tokenize incl. UTF-8 validation) compared exactly with the implementation on every request; oracle: decode(encode(s)) == s.trim_end(), every id < vocab_size. Theorems: see evidence (the list of theorems in Props/C02.lean is audited on every run); the losslessness theorems mergeWordImpl_concat / splitWords_flatten are being proved against this model.",
+        note="Until the concat theorems land, losslessness is decided by exact correspondence + the direct round-trip oracle (stated as such).",
         min_nontrivial={"quick": 300, "thorough": 5000},
         reject_ok=True,
     ),
     "C03": dict(
         anchors=[("src/tokenization.rs", r"fn merge_bytes\(")],
-        rule="P03", claim="P03", note="P03",
+        rule="words over the table alphabet for the same table families as C02 (adversarial + random well-formed tables); op bpeword returns the implementation's ids for the word and an independent naive lowest-id-leftmost BPE written in the harness; the model returns mergeWordImpl and mergeWordSpec; thorough adds all words of length <= 6 over {a,b,c} for 112 tables",
+        exhaustive={"thorough": "all 1092 words of length 1..6 over {a,b,c} x (12 adversarial + 100 random) tables"},
+        trusted=["BinaryHeap pop order is modelled as 'a maximal element of Rust's derived tuple Ord' (HEntry.lt)"],
+        claim="Model: mergeWordImpl (the heap loop as coded, after the D2/D3 repair) and mergeWordSpec (the property's definition verbatim). Every request compares implementation == mergeWordImpl and naive reference == mergeWordSpec, and the oracle demands implementation == naive reference. The refinement theorem mergeWordImpl_eq_spec is being proved; theorems present in Props/C03.lean are audited on every run.",
+        note="D2/D3 (stale heap entries, early exit) were found by this check and repaired by a fix: commit.",
         min_nontrivial={"quick": 300, "thorough": 5000},
     ),
     "C04": dict(
         anchors=[("src/tokenization.rs", r"impl Tokenize for BPETokenizer"), ("src/tokenization.rs", r"impl Tokenize for ByteTokenizer"), ("src/tokenization.rs", r"fn build\("), ("src/tokenization.rs", r"impl<Token, Config> Tokenize for VocabTokenizer<Token, Config>")],
-        rule="P04", claim="P04", note="P04",
+        rule="byte / char / BPE tokenizers x special configs (duplicates, extra tokens, clash with <extra_token_0>, non-ASCII tokens, single token) x pad_to_multiple_of x merge tables (adversarial, random well-formed) x max_vocab_size below/at/above the table; each request returns vocab_size, the whole get_vocab, pad/prefix/suffix/unk ids, id_to_token for EVERY id in [0, vocab_size+300) and token_to_id for every vocabulary entry",
+        exhaustive={"quick": "every id in [0, vocab_size + 300) and every vocabulary entry, per configuration", "thorough": "every id in [0, vocab_size + 300) and every vocabulary entry, per configuration"},
+        trusted=["HashMap / BTreeMap of the vocabulary (only id-ordered observables are compared)"],
+        claim="Theorems: uniq_nodup / uniq_mem (Vocab::build), special_tokenToId_idToToken, special_id_range + mkSpecial_range (pad, prefix, suffix ids in [offset, vocab_size) for every accepted configuration), byte/char/bpe_getVocab_length (= vocab_size), byte/char/bpe_idToToken_eq (id_to_token(id) = get_vocab()[id]? for EVERY id, hence None above vocab_size: *_idToToken_none), byte_tokenToId_idToToken, char_unk_range, idsComplete_of_wf, byte/bpe_detok_single. Exact correspondence of all vocabulary functions for every id; oracle evaluates the statement's equalities on the API.",
+        note="token_to_id = inverse of id_to_token is proved for special tokens and the byte tokenizer; for char/BPE regular tokens it is covered by correspondence + oracle. D9 (BPE id_to_token off by 256) was found by this check and repaired by a fix: commit.",
         min_nontrivial={"quick": 50, "thorough": 1000},
         reject_ok=True,
     ),
